@@ -72,6 +72,9 @@ fn grow(r: &Rectangle, n: i32) -> (i32, i32, i32, i32) {
 
 fn check(case: &Styled2, obs: &mut Obs) {
     let sty = case.sty;
+    if let Some(d) = sty.entry_points_disagree::<C>() {
+        obs.fail("style-entry-points-agree", d);
+    }
     with_closed_styled!(
         &case.shape,
         sty.build::<C>(),
@@ -181,6 +184,12 @@ fn check(case: &Styled2, obs: &mut Obs) {
 
 fn run_part(run: &mut Run) {
     let tier = run.tier;
+    run.sweep_vec(
+        "display-scale",
+        "the closed shapes of the display-scale catalogue (200..=320 px plus one 1024 px shape, three positions far from / across the origin) x 6 styles (widths 0, 1, 3, 20, 64, 300)",
+        || product(&display_scale_catalogue().into_iter().filter(|s| s.is_closed()).collect::<Vec<_>>(), &display_scale_styles()),
+        check,
+    );
     run.sweep_vec(
         "closed-shapes",
         "Rectangle/Circle/Ellipse/RoundedRectangle sizes 0..N (incl. strokes wider than the shape) x S(W) styles plus stroke colour == fill colour x widths 1..=4 (6) x 3 alignments; W=6 quick, 10 thorough",
